@@ -214,6 +214,23 @@ func roundTrip(a int64, corr bool, count bool) {
 	}
 }
 
+// ToBCH only (bulk): bit-exact against the correctly rounded quotient a / 1e8 and against
+// ToUnit(AmountBCH); hardware division as pre-filter, exact rational before reporting.
+func toBCHBulk(a int64) {
+	f := bchutil.Amount(a).ToBCH()
+	if bitsOf(f) != bitsOf(float64(a)/1e8) {
+		want := rn(new(big.Rat).Quo(new(big.Rat).SetInt64(a), rat1e8))
+		if bitsOf(want) != bitsOf(f) {
+			rep.Violate("C17:tobch:quotient", "ToBCH() is not the correctly rounded value of a / 1e8",
+				map[string]interface{}{"op": "tobch", "amount": a, "returned": fdesc(f), "required": fdesc(want)})
+		}
+	}
+	if g := bchutil.Amount(a).ToUnit(bchutil.AmountBCH); bitsOf(g) != bitsOf(f) {
+		rep.Violate("C17:tobch:tounit", "ToBCH() != ToUnit(AmountBCH)",
+			map[string]interface{}{"op": "tobch", "amount": a, "returned": fdesc(f), "to_unit": fdesc(g)})
+	}
+}
+
 // ---------- ToUnit ----------
 func toUnit(a int64, u int, corr bool) float64 {
 	f := bchutil.Amount(a).ToUnit(bchutil.AmountUnit(u))
@@ -237,6 +254,39 @@ func toUnit(a int64, u int, corr bool) float64 {
 	return f
 }
 
+// ---------- call history (state left over between calls) ----------
+// The last histK Format/String calls made on the implementation.  Every text/label violation
+// carries them in its replay ("history": [[op, amount, unit], ...]); -replay executes the
+// history first, so a fault that depends on earlier calls reproduces in a fresh process.
+type fcall struct {
+	op string // "F" Format(u), "S" String()
+	a  int64
+	u  int
+}
+
+const histK = 48
+
+var hist []fcall
+
+func histPush(op string, a int64, u int) {
+	hist = append(hist, fcall{op, a, u})
+	if len(hist) >= 4*histK {
+		hist = append(hist[:0], hist[len(hist)-histK:]...)
+	}
+}
+
+func histSnapshot() []interface{} {
+	h := hist
+	if len(h) > histK {
+		h = h[len(h)-histK:]
+	}
+	out := make([]interface{}, 0, len(h))
+	for _, c := range h {
+		out = append(out, []interface{}{c.op, c.a, c.u})
+	}
+	return out
+}
+
 // ---------- text ----------
 var decRe = regexp.MustCompile(`^-?[0-9]+(\.[0-9]+)?$`)
 
@@ -256,12 +306,15 @@ func unitString(u int, corr bool) string {
 // corr: 0 none, 1 Fmt (against format_spec), 2 FmtO (shortest text as oracle)
 func format(a int64, u int, corr int) string {
 	s := bchutil.Amount(a).Format(bchutil.AmountUnit(u))
+	defer histPush("F", a, u)
 	inCap := a >= -capSat && a <= capSat
 	rep.Count("format", fmt.Sprintf("f%d:%d", a, u), a != 0)
 	if inCap && u >= -12 && u <= 12 {
 		label := " " + refLabel(u)
 		replay := map[string]interface{}{"op": "format", "amount": a, "unit": u, "printed": s}
+		addHist := func() { replay["history"] = histSnapshot() }
 		if !strings.HasSuffix(s, label) {
+			addHist()
 			rep.Violate("C17:format:label", "Format(u) does not end with the unit's label", replay)
 		} else {
 			num := strings.TrimSuffix(s, label)
@@ -272,6 +325,9 @@ func format(a int64, u int, corr int) string {
 				got, _ = new(big.Rat).SetString(num)
 			}
 			if got == nil || got.Cmp(want) != 0 {
+				if u >= -8 {
+					addHist()
+				}
 				if u < -8 {
 					rep.Violate(knownKey, "Format(u) for u < -8: printed number is not amount * 10^-(u+8)", replay)
 				} else {
@@ -301,9 +357,27 @@ func maxInt(a, b int) int {
 func stringer(a int64) {
 	s := bchutil.Amount(a).String()
 	rep.Count("string", "S"+strconv.FormatInt(a, 10), a != 0)
-	if w := bchutil.Amount(a).Format(bchutil.AmountBCH); s != w {
-		rep.Violate("C17:string", "Amount.String() != Format(AmountBCH)", map[string]interface{}{"op": "string", "amount": a, "string": s, "format": w})
+	// the text of String() itself: exact decimal of a * 1e-8 and the BCH label
+	if a >= -capSat && a <= capSat {
+		ok := strings.HasSuffix(s, " BCH")
+		if ok {
+			num := strings.TrimSuffix(s, " BCH")
+			var got *big.Rat
+			if decRe.MatchString(num) {
+				got, _ = new(big.Rat).SetString(num)
+			}
+			ok = got != nil && got.Cmp(new(big.Rat).Quo(new(big.Rat).SetInt64(a), rat1e8)) == 0
+		}
+		if !ok {
+			rep.Violate("C17:string", "Amount.String() is not the exact decimal of a * 1e-8 followed by \" BCH\"",
+				map[string]interface{}{"op": "string", "amount": a, "string": s, "history": histSnapshot()})
+		}
 	}
+	histPush("S", a, 0)
+	if w := bchutil.Amount(a).Format(bchutil.AmountBCH); s != w {
+		rep.Violate("C17:string", "Amount.String() != Format(AmountBCH)", map[string]interface{}{"op": "string", "amount": a, "string": s, "format": w, "history": histSnapshot()})
+	}
+	histPush("F", a, 0)
 }
 
 // strconv dependency: the shortest text parses back to the same float (checked in Go and in Coq)
@@ -472,6 +546,34 @@ func main() {
 	}
 	for _, f := range specials {
 		try(f, true)
+	}
+	// NaN and infinity bit patterns over the whole payload range, both signs: quiet and signalling
+	// NaNs (mantissa bit 51 set / clear), every single payload bit, smallest and largest payloads.
+	// Also through round and MulF64 (results compared with the model; amd64 gives MinInt64).
+	{
+		const expOnes = uint64(0x7FF) << 52
+		var pay []uint64
+		pay = append(pay, 0, 1, 2, 3, 1<<51-1, 1<<51, 1<<51+1, 1<<52-1, 1<<52-2, 0x5555555555555, 0xAAAAAAAAAAAAA, 0x7FFFFFFFFFFFF, 0x4000000000000, 0x0000000080000, 0x00000FFFFFFFF)
+		for b := uint(0); b < 52; b++ {
+			pay = append(pay, uint64(1)<<b)
+		}
+		for i := 0; i < T(150, 3000); i++ {
+			p := r.U64() & (1<<52 - 1)
+			if i%2 == 0 {
+				p &^= 1 << 51 // signalling
+			}
+			pay = append(pay, p)
+		}
+		for i, p := range pay {
+			for _, sign := range []uint64{0, 1 << 63} {
+				f := math.Float64frombits(sign | expOnes | p)
+				c := i < 75 || i%T(10, 100) == 0
+				newAmount(f, corrOn && c)
+				roundHook(f, corrOn && c && i%3 == 0)
+				mulF64(int64(i+1), f, corrOn && c && i%3 == 1)
+				rep.Histogram["nan_inf_pattern"]++
+			}
+		}
 	}
 	for i := 0; i < T(600, 20000); i++ { // random bit patterns (all exponents) and random values in range
 		try(math.Float64frombits(r.U64()), i%T(12, 400) == 0)
@@ -683,6 +785,79 @@ func main() {
 	rep.Evaluations += int(2*nband) + 2*nrand
 	rep.Histogram["roundtrip_sweep"] += int(2*nband) + 2*nrand
 
+	// ToBCH, bit-exact, log-uniform over the whole range: the same number of random amounts in every
+	// binade [2^e, 2^(e+1)) up to the cap, both signs (uniform sampling starves the small binades;
+	// double-rounding faults live in narrow magnitude bands)
+	r = rng.Fork("tobch_binades")
+	perBinade := T(500000, 4000000)
+	nb := 0
+	for e := uint(0); e <= 50; e++ {
+		lo := int64(1) << e
+		hi := lo<<1 - 1
+		if hi > capSat {
+			hi = capSat
+		}
+		span := hi - lo + 1
+		if span <= int64(perBinade) {
+			for a := lo; a <= hi; a++ {
+				toBCHBulk(a)
+				toBCHBulk(-a)
+				nb += 2
+			}
+			continue
+		}
+		for i := 0; i < perBinade; i++ {
+			a := lo + int64(r.U64()%uint64(span))
+			toBCHBulk(a)
+			toBCHBulk(-a)
+			nb += 2
+		}
+	}
+	rep.Evaluations += nb
+	rep.Histogram["tobch_binade_sweep"] += nb
+
+	// ---------------- call sequences (state between calls) ----------------
+	// X' then X then X again then String: X = Format(a,u), X' = Format(a+da, u+du) for EVERY unit
+	// offset du that stays inside -12..12 and da in -2..2.  A result that depends on what was
+	// formatted before (memo, cache, shared buffer) shows up as a wrong text or label for X.
+	r = rng.Fork("history")
+	hbase := []int64{0, 1, -1, 7, 12345, -12345, 99999999, 100000000, -100000001, capSat - 1, capSat, -capSat + 1}
+	for i := 0; i < T(4, 60); i++ {
+		hbase = append(hbase, int64(r.U64()%uint64(capSat))-capSat/2)
+	}
+	for _, a := range hbase {
+		for _, u := range units {
+			for _, u2 := range units {
+				for da := int64(-2); da <= 2; da++ {
+					a2 := a + da
+					if a2 > capSat || a2 < -capSat || (a2 == a && u2 == u) {
+						continue
+					}
+					format(a2, u2, 0)
+					format(a, u, 0)
+					if (da+int64(u2))%3 == 0 {
+						format(a, u, 0) // immediately repeated call
+						stringer(a)
+						format(a2, u2, 0)
+					}
+					rep.Histogram["history_sequence"]++
+				}
+			}
+		}
+	}
+	// random interleavings over a small pool (many repeats and near-collisions)
+	for i := 0; i < T(20000, 400000); i++ {
+		a := vh.Pick(r, hbase) + int64(r.Intn(5)) - 2
+		if a > capSat || a < -capSat {
+			continue
+		}
+		if r.Intn(6) == 0 {
+			stringer(a)
+		} else {
+			format(a, vh.Pick(r, units), 0)
+		}
+	}
+
 	// ---------------- MulF64 ----------------
 	r = rng.Fork("mulf64")
 	mults := []float64{0.5, -0.5, 1.5, 2.5, 0.25, 0.75, 0.125, 1, -1, 0, math.Copysign(0, -1), 0.1, 0.01, 0.001, 0.0025, 1.0 / 3, 2.0 / 3, 1e-8, 1e8, 3, 1.0000000000000002, 0.9999999999999999,
@@ -781,8 +956,10 @@ func replay() {
 	case "tounit":
 		toUnit(num("amount"), int(num("unit")), true)
 	case "format":
+		replayHistory(in["history"])
 		format(num("amount"), int(num("unit")), 1)
 	case "string":
+		replayHistory(in["history"])
 		stringer(num("amount"))
 	case "unit":
 		unitString(int(num("unit")), true)
@@ -792,5 +969,28 @@ func replay() {
 		shortest(math.Float64frombits(unum("bits")), true)
 	default:
 		fmt.Fprintln(os.Stderr, "replay: unknown op", op)
+	}
+}
+
+// replayHistory re-executes the recorded earlier Format/String calls (monitors active) so that
+// state-dependent faults reproduce in a fresh process
+func replayHistory(h interface{}) {
+	list, _ := h.([]interface{})
+	for _, e := range list {
+		c, _ := e.([]interface{})
+		if len(c) != 3 {
+			continue
+		}
+		op, _ := c[0].(string)
+		an, _ := c[1].(json.Number)
+		un, _ := c[2].(json.Number)
+		a, _ := strconv.ParseInt(an.String(), 10, 64)
+		u, _ := strconv.ParseInt(un.String(), 10, 64)
+		if op == "S" {
+			_ = bchutil.Amount(a).String()
+			histPush("S", a, 0)
+		} else {
+			format(a, int(u), 0)
+		}
 	}
 }
